@@ -68,6 +68,12 @@ CLAIMED = {
             "Narrow: zero-width operands are guarded in every sink implementation, default methods are built only "
             "from required ones, both write_bytes_aligned overrides align first, and foreign operand types cannot be "
             "written. Bit-exactness of the shift/carry arithmetic is numerical and not decided.", "4/C11"),
+    "C20": ("XCFG: normalised MIR fingerprints of the encode/serialise closure compared across feature "
+            "configurations + control-dependence obligations on the enumerated gates",
+            "The set of bodies reachable from the encode and serialise entry points without entering a gate, and the "
+            "MIR of each, are identical in {} / default+decode (quick) and in all four buildable feature sets "
+            "(thorough); gates are entered only under the config flags verification forces off or that select the "
+            "parallel mode. Dependency feature unification is trusted.", "4/C20"),
 }
 
 NA = {
